@@ -165,6 +165,16 @@ func moduleStmt(g *yg.G) *yg.Stmt {
 			body = append(body, mk("list", fmt.Sprintf("ls%d", i), mk("key", "k"), leaf("k")))
 		}
 	}
+	// a statement of an earlier section written behind the body (out of place: refused, with a location like any error),
+	// or two revisions in the wrong order
+	if g.Pick(4, "outofplace") == 0 {
+		late := [][2]string{{"revision", "2020-01-01"}, {"namespace", "urn:late"}, {"prefix", "late"}, {"yang-version", "1"}, {"organization", "late org"}, {"contact", "late"},
+			{"description", "late description"}, {"reference", "late ref"}, {"include", "late-sub"}}[g.Pick(9, "latekind")]
+		body = append(body, mk(late[0], late[1]))
+		if g.Pick(2, "lateimport") == 0 {
+			body = append(body, mk("import", "late-mod", mk("prefix", "lm")))
+		}
+	}
 	return mk("module", "m", body...)
 }
 
